@@ -56,6 +56,10 @@ def make_jobs(ctx):
     for i in range(ngr):
         jobs.append(('net', {'seed': rng.randrange(1 << 30), 'kind': 'grammar', 'fold': i % 3 == 0, 'mode': rng.choice(['mix', 'mix', 'mix', 'min', 'all', 'adv']),
                              'integer': i % 2 == 0, 'dim': [1, 1, 2][i % 3]}))
+    nx = 40 if ctx.quick else 500
+    for i in range(nx):
+        jobs.append(('net', {'seed': rng.randrange(1 << 30), 'kind': 'xnet', 'fold': i % 3 == 0, 'mode': rng.choice(['mix', 'mix', 'min', 'adv']),
+                             'integer': True, 'dim': [1, 1, 2][i % 3]}))
     nl = 150 if ctx.quick else 1500
     for i in range(nl):
         K = rng.randint(1, 9)
@@ -211,6 +215,83 @@ def compare_layer(L, val):
     return diffs
 
 
+def xnet_expr(o):
+    """Coq term `run_net nodes x` for a BN-free integer network: every derived quantity of the export (time mask, K', d',
+    new pad amount, input masks, sliced parameters) is computed by the model"""
+    spec, X = o['spec'], o['xnet']
+    nodes = spec['nodes']
+    terms = []
+
+    def hp(L):
+        return '(export_conv1d_hp %s %s false %s %s %s %s %s [] [])' % (coq(L['dw']), coq(L['frozen_t']), coq(L['fold']), coq(Nat(L['K'])), coq(Nat(L['d0'])), coq(fr(L['beta'])), coq(fr(L['gamma'])))
+    for i, nd in enumerate(nodes):
+        k = nd['k']
+        nm = ga.name(i)
+        L = o['layers'].get(nm)
+        bias = lambda: 'None' if X['b'][nm] is None else coq(some(X['b'][nm]))
+        if k == 'in':
+            terms.append('XIn')
+        elif k == 'pad1d':
+            cons = [j for j, n2 in enumerate(nodes) if n2['k'] == 'conv1d' and n2['src'] == i]
+            newpad = ('(hp_pad %s)' % hp(o['layers'][ga.name(cons[0])])) if cons else coq(Nat(nd['left']))
+            terms.append('XPad %s %s %s' % (coq(Nat(nd['src'])), coq(Nat(nd['left'])), newpad))
+        elif k == 'conv1d':
+            terms.append('XConv1 %s %s %s %s %s %s %s %s %s %s (time_mask_of %s %s %s %s) (hp_k %s) (hp_dil %s)' % (
+                coq(Nat(nd['src'])), coq(L['fold']), coq(L['dw']), coq(X['w'][nm]), bias(), coq(Nat(nd['cin'])), coq(Nat(nd['ks'])), coq(Nat(nd['dil'])), coq(Nat(nd['stride'])),
+                coq(L['mout']), coq(L['frozen_t']), coq(Nat(L['K'])), coq(fr(L['beta'])), coq(fr(L['gamma'])), hp(L), hp(L)))
+        elif k == 'conv2d':
+            kh, kw = nd['ks']
+            ph, pw = ((nd['dil'] * (kh - 1)) // 2, (nd['dil'] * (kw - 1)) // 2) if nd['padding'] == 'same' else (nd['padding'], nd['padding'])
+            terms.append('XConv2 %s %s %s %s %s %s %s %s %s %s %s %s %s' % (
+                coq(Nat(nd['src'])), coq(L['fold']), coq(L['dw']), coq(X['w'][nm]), bias(), coq(Nat(nd['cin'])), coq(Nat(kh)), coq(Nat(kw)), coq(Nat(nd['dil'])), coq(Nat(nd['stride'])),
+                coq(Nat(ph)), coq(Nat(pw)), coq(L['mout'])))
+        elif k == 'linear':
+            terms.append('XLin %s %s %s %s %s %s' % (coq(Nat(nd['src'])), coq(L['fold']), coq(X['w'][nm]), bias(), coq(Nat(nd['cin'])), coq(L['mout'])))
+        elif k in ('relu', 'relu_f', 'relu6'):
+            terms.append('XAct %s %s' % (coq(Nat(nd['src'])), coq(k == 'relu6')))
+        elif k in ('dropout', 'identity'):
+            terms.append('XId %s' % coq(Nat(nd['src'])))
+        elif k in ('maxpool1d', 'maxpool2d'):
+            terms.append('XMaxPool %s %s' % (coq(Nat(nd['src'])), coq(Nat(nd['ks']))))
+        elif k == 'flatten':
+            terms.append('XFlatten %s' % coq(Nat(nd['src'])))
+        elif k == 'add':
+            terms.append('XAdd %s %s' % (coq(Nat(nd['src'][0])), coq(Nat(nd['src'][1]))))
+        elif k == 'cat' and nd['dim'] == 1:
+            terms.append('XCat %s' % coq([Nat(j) for j in nd['src']]))
+        else:
+            return None
+    x = 'TS%d %s' % (spec['dim'], coq(X['x']))
+    return 'run_net [%s] (%s)' % ('; '.join(terms), x)
+
+
+def compare_xnet(o, val):
+    """model (p, e, alive) of every node vs the implementation: outputs of every searchable layer of both networks, masks, final outputs"""
+    X, spec = o['xnet'], o['spec']
+    d = []
+    if len(val) != len(spec['nodes']):
+        return ['node count: model %d spec %d' % (len(val), len(spec['nodes']))]
+    un = lambda t: t[1] if isinstance(t, tuple) and len(t) == 2 else t
+    for i, nd in enumerate(spec['nodes']):
+        nm = ga.name(i)
+        p, e, a = val[i]
+        if nm in o['layers']:
+            L = o['layers'][nm]
+            if a != L['mout']:
+                d.append('%s alive: model %r impl %r' % (nm, a, L['mout']))
+            src_alive = val[nd['src']][2]
+            if src_alive != L['min']:
+                d.append('%s input mask: model (alive of producer) %r impl features_mask %r' % (nm, src_alive, L['min']))
+            if nm in X['pout'] and un(p) != X['pout'][nm]:
+                d.append('%s masked output: model %r impl %r' % (nm, un(p), X['pout'][nm]))
+            if nm in X['eout'] and un(e) != X['eout'][nm]:
+                d.append('%s exported output: model %r impl %r' % (nm, un(e), X['eout'][nm]))
+    out = spec['out'][0]
+    if un(val[out][0]) != X['yp'] or un(val[out][1]) != X['ye']:
+        d.append('network output: model (%r, %r) impl (%r, %r)' % (un(val[out][0]), un(val[out][1]), X['yp'], X['ye']))
+    return d
+
+
 def layer_case_exprs(c):
     j = c['job']
     tm = 'time_mask_of %s %s %s %s' % (coq(c['frozen']), coq(Nat(j['K'])), coq(fr(c['beta'])), coq(fr(c['gamma'])))
@@ -305,6 +386,15 @@ def run(ctx):
                 d = compare_layer(L, v)
                 if d:
                     mism.append(({'job': o['job'], 'arch': o['arch'], 'layer': nm, 'masks': {k: L.get(k) for k in ('mout', 'min', 'tm', 'beta', 'gamma')}}, d))
+            xn = [(o, xnet_expr(o)) for o in nets if o.get('xnet')]
+            xn = [(o, e) for o, e in xn if e]
+            vals = ctx.coq_eval_sharded('xnets', IMPORTS, '', [e for _, e in xn], shard=25)
+            for (o, _), v in zip(xn, vals):
+                ctx.corr += 1
+                d = compare_xnet(o, v)
+                if d:
+                    mism.append(({'job': o['job'], 'arch': o['arch']}, d))
+            ctx.extra['whole_networks_evaluated_in_coq'] = len(xn)
             vals = ctx.coq_eval_sharded('lcases', IMPORTS, '', [layer_case_exprs(c) for c in lays], shard=100)
             for c, (ypit, yexp, mout, tm) in zip(lays, vals):
                 ctx.corr += 1
